@@ -48,7 +48,7 @@ ASSUMPTIONS = [
 ]
 EXPECTED_PROBES = ['roundtrip_local', 'roundtrip_network', 'multi_blob', 'exact_blob_boundary', 'one_byte_file', 'tamper_refused',
                    'tamper_refused_InvalidStreamDescriptorError', 'names_checked', 'odd_name_published', 'own_key_iv', 'product_key_iv',
-                   'stream_hash_checked', 'sd_hash_checked']
+                   'stream_hash_checked', 'sd_hash_checked', 'raw_name_descriptor_loaded', 'recovered_file_name_checked']
 
 MAX_BLOB = 2 * 1024 * 1024
 TAMPERS = ['stream_name', 'key', 'suggested_file_name', 'blob_hash', 'blob_num', 'iv', 'length', 'swap', 'drop_terminator',
@@ -98,6 +98,10 @@ def gen(run_seed, tier):   # noqa: F811
     r2 = stream('C02.gen.iv_repeat', run_seed)
     if r2.random() < 0.015:
         sc.update(size=2 * (MAX_BLOB - 1) + r2.choice([0, 0, 5]), own_key=True, iv_repeat=True, via_network=False, ops=[])
+    # a publisher that does not sanitise: the raw suggested name reaches every place a downloading node saves under
+    r3 = stream('C02.gen.raw_name', run_seed)
+    if r3.random() < 0.15 and not sc.get('iv_repeat'):
+        sc['raw_name'] = ''.join(r3.choice(NAME_ALPHABET + ['/', '../', '\x1b[2J', '\r', '\x00']) for _ in range(r3.choice([2, 5, 12])))
     return sc
 
 
@@ -503,6 +507,45 @@ def execute(scenario, keep_trace=False):
                     return
                 finally:
                     dl.stop()
+        # ---- a publisher that writes the suggested name RAW (the descriptor is consistent: it loads) ------------------
+        if scenario.get('raw_name'):
+            raw = scenario['raw_name']
+            d2 = json.loads(json.dumps(d))
+            d2['suggested_file_name'] = binascii.hexlify(raw.encode('utf-8', 'surrogatepass')).decode()
+            d2['stream_hash'] = ref_stream_hash(d2)
+            Hr = await make_node('Hr')
+            await serve(Hr, '6.6.6.6')
+            blob, _ = await be.download_blob(Hr['bm'], json.dumps(d2, sort_keys=True).encode(), chunks=1, peer=('7.7.7.9', 3333))
+            await asyncio.sleep(0.05)
+            R = await make_node('R')
+            dl = StreamDownloader(loop, R['conf'], R['bm'], blob.blob_hash)
+            dl.peer_queue.put_nowait([make_kademlia_peer(None, '6.6.6.6', tcp_port=3333)])
+            judged[0] += 1
+            try:
+                await asyncio.wait_for(dl.load_descriptor(), 120)
+            except Exception as e:  # noqa  (refusing such a descriptor outright would be fine too)
+                run.probes['raw_name_descriptor_refused'] += 1
+            else:
+                run.probes['raw_name_descriptor_loaded'] += 1
+                # every name this node would save under: the one the downloader suggests ...
+                from lbry.stream.descriptor import sanitize_file_name as _san
+                if not check_name(_san(dl.descriptor.suggested_file_name), 'raw_sanitized'):
+                    return
+                # ... and the one start-up recovery writes into the file table (sd blob file missing at a later start)
+                try:
+                    await R['storage'].recover_streams([(dl.descriptor, R['bm'].get_blob(blob.blob_hash), None)],
+                                                       R['dirs'].downloads)
+                    rows = await R['storage'].db.execute_fetchall("select file_name from file")
+                except Exception as e:  # noqa
+                    run.violation('C02.exception', f'recover_streams raised {type(e).__name__}: {e}', where='recover')
+                    return
+                for (fn,) in rows:
+                    if fn:
+                        run.probes['recovered_file_name_checked'] += 1
+                        if not check_name(binascii.unhexlify(fn).decode('utf-8', 'replace'), 'recovered'):
+                            return
+            finally:
+                dl.stop()
 
     try:
         run.drive(driver())
